@@ -707,13 +707,20 @@ class Gen(object):
         p2 = []
         plur = self.inline(min(depth, 1), True, p2, dirs_ok=False, alpha=alpha, maxparams=len(params))
         elem = r.random() < 0.85
-        sing = self.edges(sing, must=not elem, alpha=alpha)
-        plur = self.edges(plur, must=not elem, alpha=alpha)
+        # a branch may carry py:strip (as in the library's own tests); like the element form it then
+        # has to start and end with text or an expression (finding C19-msg-element-first-child)
+        strip_s = elem and r.random() < 0.1
+        strip_p = elem and r.random() < 0.1
+        sing = self.edges(sing, must=(not elem) or strip_s, alpha=alpha)
+        plur = self.edges(plur, must=(not elem) or strip_p, alpha=alpha)
         ws = lambda: ['t', r.choice(['\n', ' ', '\n  ', '  '])]
         tag = r.choice([t for t in ['p', 'span', 'li'] if t not in self.config['ignore_tags']])
         if elem:
-            bs = ['e', tag, self.attrs(lang_ok=False), [['i18n:singular', '']], sing]
-            bp = ['e', tag, self.attrs(lang_ok=False), [['i18n:plural', '']], plur]
+            # a branch may carry py:strip (as in the library's own tests)
+            ds = [['i18n:singular', '']] + ([['py:strip', '']] if strip_s else [])
+            dp = [['i18n:plural', '']] + ([['py:strip', '']] if strip_p else [])
+            bs = ['e', tag, self.attrs(lang_ok=False), ds, sing]
+            bp = ['e', tag, self.attrs(lang_ok=False), dp, plur]
         else:
             bs = ['d', 'i18n:singular', [], sing]
             bp = ['d', 'i18n:plural', [], plur]
